@@ -4,6 +4,7 @@
 //!
 //! usage:  c01 gen <seed> <n> [start]     generated programs seed/index
 //!         c01 run                        programs (line format, see ast.rs) from stdin
+//!         c01 wasm <file>...             real .wasm modules: dump compiler input (types, imports, functions) and output
 //!         c01 compile                    same, but only instantiate and dump the compiled code (no execution)
 //! Configurations: v0, v1 (ValidationConfig), each plain / m0 / m1 (metering cost V0 / V1).
 mod ast;
@@ -149,6 +150,33 @@ fn compiler_input(cfg: &str, bytes: &[u8]) -> Result<J, String> {
     Ok(json!(fs))
 }
 
+fn vt_tok(t: &ValueType) -> &'static str { match t { ValueType::I32 => "7f", ValueType::I64 => "7e" } }
+
+/// Everything the compiler model needs about a real module: types, imports, function
+/// declarations with the (possibly metered) opcode stream, and the real compiler's output.
+fn wasm_dump(cfg: &str, bytes: &[u8]) -> Result<J, String> {
+    use concordium_wasm::{parse::parse_skeleton, validate::validate_module, types::ImportDescription};
+    let sk = parse_skeleton(bytes).map_err(|e| e.to_string())?;
+    // protocol 6+ configuration first; modules that need globals in initialisers only validate under V0
+    let mut module = match validate_module(ValidationConfig::V1, &AllowAll, &sk) {
+        Ok(m) => m,
+        Err(_) => validate_module(ValidationConfig::V0, &AllowAll, &sk).map_err(|e| e.to_string())?,
+    };
+    if cfg.len() > 2 { module.inject_metering(CostConfigurationV1).map_err(|e| e.to_string())?; }
+    let types: Vec<J> = module.ty.types.iter().map(|t| json!({
+        "p": t.parameters.iter().map(vt_tok).collect::<Vec<_>>(),
+        "r": t.result.iter().map(vt_tok).collect::<Vec<_>>()})).collect();
+    let imports: Vec<u32> = module.import.imports.iter().map(|i| match i.description { ImportDescription::Func { type_idx } => type_idx }).collect();
+    let funcs: Vec<J> = module.code.impls.iter().map(|c| {
+        let mut locals: Vec<&str> = vec![];
+        for l in c.locals.iter() { for _ in 0..l.multiplicity { locals.push(vt_tok(&l.ty)); } }
+        json!({"ty": c.ty_idx, "locals": locals, "ops": c.expr.instrs.iter().map(opcode_tok).collect::<Vec<_>>().join(" ")})
+    }).collect();
+    let nimports = imports.len();
+    let art: Art = module.compile().map_err(|e| e.to_string())?;
+    Ok(json!({"types": types, "imports": imports, "funcs": funcs, "nimports": nimports, "out": dump_code(&art)}))
+}
+
 fn dump_code(art: &Art) -> J {
     let fs: Vec<J> = art.code.iter().map(|f| json!({
         "code": hex(f.code()),
@@ -238,6 +266,21 @@ fn main() {
                 match Case::from_line(l) {
                     Some(c) => process(&format!("in{}", i), &c, json!({}), true),
                     None => println!("{}", json!({"id": format!("in{}", i), "parse_error": 1})),
+                }
+            }
+        }
+        "wasm" => {
+            // parse/validate/(meter)/compile real modules; dump the compiler's input and output
+            for path in a.iter().skip(2) {
+                let bytes = match std::fs::read(path) { Ok(b) => b, Err(e) => { println!("{}", json!({"file": path, "io_error": e.to_string()})); continue; } };
+                for cfg in ["v1", "v1m1"].iter() {
+                    PROGRESS.fetch_add(1, Ordering::SeqCst);
+                    let r = guarded(|| wasm_dump(cfg, &bytes));
+                    match r {
+                        Ok(Ok(mut j)) => { j["file"] = json!(path); j["cfg"] = json!(cfg); println!("{}", j); }
+                        Ok(Err(e)) => println!("{}", json!({"file": path, "cfg": cfg, "rejected": e})),
+                        Err(p) => println!("{}", json!({"file": path, "cfg": cfg, "PANIC": p})),
+                    }
                 }
             }
         }
